@@ -57,4 +57,43 @@ func (rl *RateLimiter) acquirePermission(count int) (ok bool, wait time.Duration
   assert release-time: let c = cyc(rl, clock) in (ok && old(rl.state) != StateDisabled && wait > 0 ==> clock + wait - rl.startTime == P(rl) * (c + old(shifted(rl, c)) / L(rl)))
   assert release-cycle: let c = cyc(rl, clock) in (ok && old(rl.state) != StateDisabled && wait > 0 ==> cyc(rl, clock + wait) == c + old(shifted(rl, c)) / L(rl))
   ghost at return: rl.rel[cyc(rl, clock + wait)] := (ok && old(rl.state) != StateDisabled) ? rl.rel[cyc(rl, clock + wait)] + 1 : rl.rel[cyc(rl, clock + wait)]
+
+// ---- MultiRateLimiter (C09 for several kinds of token at once; mqttproxy's limiter) ----
+pred mN(rl *MultiRateLimiter) := len(rl.policy.LimitForPeriod)
+pred mL(rl *MultiRateLimiter, i int) := rl.policy.LimitForPeriod[i]
+pred mP(rl *MultiRateLimiter) := rl.policy.LimitRefreshPeriod
+pred mT(rl *MultiRateLimiter) := rl.policy.TimeoutDuration
+pred mcyc(rl *MultiRateLimiter, t int) := (t - rl.startTime) / mP(rl)
+pred mShift(rl *MultiRateLimiter, c int, i int) := max(0, rl.tokens[i] - (c - rl.cycle) * mL(rl, i))
+pred mWF(rl *MultiRateLimiter) := rl != nil && rl.policy != nil && mP(rl) > 0 && mT(rl) >= 0 && len(rl.tokens) == mN(rl) && ref(rl.tokens) != ref(rl.policy.LimitForPeriod) && rl.startTime <= clock && rl.cycle >= 0 && rl.cycle <= mcyc(rl, clock) && (forall i int :: 0 <= i && i < mN(rl) ==> mL(rl, i) >= 1 && rl.tokens[i] >= 0)
+
+lemma quotient-bound@k: forall s, l, k int :: l >= 1 && s >= 0 && k >= 0 && s < l * (k + 1) ==> s / l <= k
+lemma whole-periods-fit@q: forall p, t, q int :: p > 0 && t >= 0 && 0 <= q && q <= t / p ==> p * q <= t
+
+func (rl *MultiRateLimiter) AcquirePermission(count []int) (ok bool, wait time.Duration, err error)
+  flag allocates
+  requires mWF(rl) && ref(count) != ref(rl.tokens)
+  requires forall i int :: 0 <= i && i < len(count) ==> count[i] >= 0
+  modifies elems(rl.tokens), rl.cycle, rl.state, clock
+  ensures stays-well-formed: mWF(rl)
+  ensures disabled: old(rl.state) == StateDisabled ==> ok && wait == 0 && err == nil
+  ensures wrong-number-of-kinds-is-an-error: old(rl.state) != StateDisabled && len(count) != mN(rl) ==> !ok && err != nil
+  ensures reject-iff-some-kind-has-its-horizon-full: let c = mcyc(rl, clock) in (old(rl.state) != StateDisabled && len(count) == mN(rl) ==> err == nil && (ok <==> (forall i int :: 0 <= i && i < mN(rl) ==> old(mShift(rl, c, i)) < mL(rl, i) * (mT(rl) / mP(rl) + 1))))
+  ensures reject-changes-nothing: !ok ==> rl.cycle == old(rl.cycle) && rl.state == old(rl.state) && (forall i int :: 0 <= i && i < mN(rl) ==> rl.tokens[i] == old(rl.tokens[i]))
+  ensures reject-waits-the-timeout: old(rl.state) != StateDisabled && len(count) == mN(rl) && !ok ==> wait == mT(rl)
+  ensures admitted-tokens-are-reserved: let c = mcyc(rl, clock) in (old(rl.state) != StateDisabled && ok ==> rl.cycle == c && (forall i int :: 0 <= i && i < mN(rl) ==> rl.tokens[i] == old(mShift(rl, c, i)) + count[i]))
+  ensures spare-permits-of-every-kind-proceed-immediately: let c = mcyc(rl, clock) in (old(rl.state) != StateDisabled && len(count) == mN(rl) && (forall i int :: 0 <= i && i < mN(rl) ==> old(mShift(rl, c, i)) < mL(rl, i)) ==> ok && wait == 0)
+  ensures released-no-earlier-than-the-cycle-every-kind-allows: let c = mcyc(rl, clock) in (old(rl.state) != StateDisabled && ok && wait > 0 ==> (forall i int :: 0 <= i && i < mN(rl) ==> clock + wait - rl.startTime >= mP(rl) * (c + old(mShift(rl, c, i)) / mL(rl, i))))
+  ensures bounded-wait: ok ==> 0 <= wait && wait <= mT(rl)
+  invariant[1] 0 <= i && i <= len(maxTokens) && len(maxTokens) == mN(rl) && (forall j int :: 0 <= j && j < len(maxTokens) ==> maxTokens[j] == (j < i ? mL(rl, j) * scale : mL(rl, j)))
+  invariant[1] forall j int :: 0 <= j && j < mN(rl) ==> rl.tokens[j] == old(rl.tokens[j])
+  invariant[2] let c = cycle in (0 <= idx$2 && idx$2 <= len(tokens) && len(tokens) == mN(rl) && (forall j int :: 0 <= j && j < idx$2 ==> tokens[j] == old(mShift(rl, c, j))))
+  invariant[2] forall j int :: 0 <= j && j < mN(rl) ==> rl.tokens[j] == old(rl.tokens[j]) && maxTokens[j] == mL(rl, j) * scale
+  invariant[3] forall j int :: 0 <= j && j < idx$3 ==> tokens[j] < maxTokens[j]
+  invariant[4] let c = cycle in (0 <= i && i <= mN(rl) && (forall j int :: 0 <= j && j < mN(rl) ==> tokens[j] == old(mShift(rl, c, j)) && maxTokens[j] == mL(rl, j) * scale && rl.tokens[j] == (j < i ? tokens[j] + count[j] : old(rl.tokens[j]))))
+  invariant[5] allFree && (forall j int :: 0 <= j && j < idx$5 ==> tokens[j] < mL(rl, j))
+  invariant[6] horizon: scale == mT(rl) / mP(rl) + 1 && cycle == (now - rl.startTime) / mP(rl) && now >= rl.startTime && (forall j int :: 0 <= j && j < mN(rl) ==> 0 <= tokens[j] && tokens[j] < mL(rl, j) * scale)
+  invariant[6] quotient-bound: forall j int :: 0 <= j && j < mN(rl) ==> tokens[j] / mL(rl, j) <= mT(rl) / mP(rl)
+  invariant[6] whole-periods-fit: (forall j int :: 0 <= j && j < mN(rl) ==> mP(rl) * (tokens[j] / mL(rl, j)) <= mT(rl)) && mP(rl) * cycle <= now - rl.startTime
+  invariant[6] 0 <= timeToWait && timeToWait <= mT(rl) && (forall j int :: 0 <= j && j < idx$6 ==> timeToWait >= rl.startTime + mP(rl) * (cycle + tokens[j] / mL(rl, j)) - now)
 @*/
